@@ -51,9 +51,14 @@ pub enum Traffic {
     /// the first fragment of a ClientHello record, then a hole (one segment is never seen), then
     /// endless in-order segments behind the hole; every 2000th segment opens another hole
     TlsHelloFragmentHoleThenData,
+    /// ClientHello and ServerHello, then segments that start in the middle of a record (the
+    /// capture lost the record boundary): the first one happens to begin with 0x16 followed by
+    /// bytes that are no TLS version, the rest is arbitrary; every 1500th segment begins that way
+    /// again.  Both directions.
+    TlsMidRecordSegments,
 }
 
-pub const ALL: [Traffic; 17] = [
+pub const ALL: [Traffic; 18] = [
     Traffic::HttpHeadNeverCompletes,
     Traffic::HttpPostEndlessBody,
     Traffic::HttpResponseNeverCompletes,
@@ -71,6 +76,7 @@ pub const ALL: [Traffic; 17] = [
     Traffic::Http2FailingBlockThenData,
     Traffic::HttpStraySegmentFarAhead,
     Traffic::TlsHelloFragmentHoleThenData,
+    Traffic::TlsMidRecordSegments,
 ];
 
 /// Lazily produces the frames of one long connection.
@@ -86,7 +92,7 @@ pub struct LongConn {
 impl LongConn {
     pub fn new(kind: Traffic, id: u64, seed: u64, seg: usize) -> LongConn {
         let mut r = Rng::from_parts(&[seed, id, kind as u64]);
-        let ep = Endpoints::v4([10, 7, (id >> 8) as u8, id as u8], 20000 + (id % 30000) as u16, [192, 0, 2, 1 + (id % 200) as u8], if matches!(kind, Traffic::TlsAppDataAfterServerHello | Traffic::TlsAppDataAfterClientHello | Traffic::TlsHugeDeclaredRecord | Traffic::TlsSeveralRecordsPerSegment | Traffic::TlsHelloFragmentHoleThenData) { 443 } else { 80 });
+        let ep = Endpoints::v4([10, 7, (id >> 8) as u8, id as u8], 20000 + (id % 30000) as u16, [192, 0, 2, 1 + (id % 200) as u8], if matches!(kind, Traffic::TlsAppDataAfterServerHello | Traffic::TlsAppDataAfterClientHello | Traffic::TlsHugeDeclaredRecord | Traffic::TlsSeveralRecordsPerSegment | Traffic::TlsHelloFragmentHoleThenData | Traffic::TlsMidRecordSegments) { 443 } else { 80 });
         let mut s = Script::new(ep, Link::Ethernet, r.u32(), r.u32());
         s.handshake();
         match kind {
@@ -124,7 +130,7 @@ impl LongConn {
                 s.c_data(b"HTTP/1.1 200 OK\r\nServer: nginx\r\nContent-Type: text/html\r\n\r\n");
                 s.s_data(b"GET /index.html HTTP/1.1\r\nHost: example.org\r\nUser-Agent: curl/8.4.0\r\n\r\n");
             }
-            Traffic::TlsSeveralRecordsPerSegment => {
+            Traffic::TlsSeveralRecordsPerSegment | Traffic::TlsMidRecordSegments => {
                 let h = scenario::client_hello(&mut r, id, 0);
                 s.c_data(&h);
                 s.s_data(&scenario::server_hello_like());
@@ -199,6 +205,21 @@ impl LongConn {
                 }
                 let b = self.r.bytes(n);
                 self.s.c_data(&b);
+            }
+            Traffic::TlsMidRecordSegments => {
+                let mut b = self.r.bytes(n.max(8));
+                if self.i <= 2 || self.i % 1500 == 0 {
+                    b[0] = 0x16;
+                    b[1] = *self.r.pick(&[0x7fu8, 0x00, 0x16, 0x30, 0x02]);
+                    b[2] = self.r.u8() | 0x10;
+                } else if b[0] == 0x16 {
+                    b[0] = 0x99;
+                }
+                if self.i % 2 == 0 {
+                    self.s.c_data(&b);
+                } else {
+                    self.s.s_data(&b);
+                }
             }
             Traffic::RandomBothDirections => {
                 let b = self.r.bytes(n);
@@ -726,6 +747,7 @@ pub fn spec() -> PropSpec {
         shards: super::shards_16,
         rule: "one connection of each traffic kind (HTTP head that never completes, POST with endless body, response that never completes, TLS application data after ServerHello / after ClientHello, ClientHello with a 65535-byte record never completed, random bytes in both directions, 1-byte segments, timestamped ACKs) is driven with N segments (quick 2e4, thorough 1e6) of 1400 and 64 payload bytes through the HTTP, TLS, TCP and unified analyzers and through one-worker pools while a counting allocator reads, after every packet, the bytes allocated for it and the bytes still retained; rules: retained <= 1 MiB per connection, allocation per packet <= 4 MiB + 8 x packet length, and with more connections than capacity retained <= capacity x 1 MiB and, after the first `capacity` connections, never more than twice what those retained plus 64 KiB (plateau; also with many connections that each leave only a 64-byte unfinished piece; also inside one-worker HTTP and TLS pools whose queues are far longer than their connection capacity); a bucket is a distinct (path, traffic kind, segment size) or capacity configuration",
         assumptions: &[
+            "18 traffic kinds since round 7 (mid-record TLS segments beginning 0x16 + non-version octets, both directions)",
             "bytes allocated while handling a packet are the work proxy (re-assembly and re-parsing copy what they process)",
             "limits are generous constants (1 MiB retained per connection, 4 MiB constant work term); growth proportional to history crosses them within the driven length",
             "worker-path retention is read from process-wide counters at quiescent points and therefore includes the harness' own small bookkeeping (limit doubled)",
